@@ -184,6 +184,13 @@ func (m *concModel) orgS(v ssa.Value, depth int, busy map[ssa.Value]bool) origin
 		return m.orgS(x.X, depth+1, busy)
 	case *ssa.UnOp:
 		if x.Op == token.MUL {
+			if fv, ok := x.X.(*ssa.FreeVar); ok {
+				// a variable captured by a closure that is only called: what is ever stored into that cell,
+				// by the closure or by the function that owns the variable
+				if o, ok := m.capturedCellOrigin(fv, depth, busy); ok {
+					return o
+				}
+			}
 			o := m.orgS(x.X, depth+1, busy)
 			if o == oFresh || o == oCallFresh {
 				// what was stored into the fresh object? look for the stores when it is a local cell
@@ -279,6 +286,94 @@ func (m *concModel) orgS(v ssa.Value, depth int, busy map[ssa.Value]bool) origin
 		return oUnknown
 	}
 	return oUnknown
+}
+
+// capturedCellOrigin: fv is a captured variable of a closure whose every
+// MakeClosure binds it to one local cell of the enclosing function; the origin
+// of the cell's content is the worst origin of all values stored into it
+// (through the cell in the owner, through the free variable in the closure).
+func (m *concModel) capturedCellOrigin(fv *ssa.FreeVar, depth int, busy map[ssa.Value]bool) (origin, bool) {
+	clo := fv.Parent()
+	owner := clo.Parent()
+	if owner == nil {
+		return oUnknown, false
+	}
+	idx := -1
+	for i, f := range clo.FreeVars {
+		if f == fv {
+			idx = i
+		}
+	}
+	var cell *ssa.Alloc
+	for _, b := range owner.Blocks {
+		for _, in := range b.Instrs {
+			mc, ok := in.(*ssa.MakeClosure)
+			if !ok || mc.Fn != ssa.Value(clo) {
+				continue
+			}
+			al, ok := mc.Bindings[idx].(*ssa.Alloc)
+			if !ok || (cell != nil && cell != al) {
+				return oUnknown, false
+			}
+			cell = al
+		}
+	}
+	if cell == nil {
+		return oUnknown, false
+	}
+	// the cell's address goes nowhere but into closures of the owner, loads and stores
+	for _, ref := range *cell.Referrers() {
+		switch x := ref.(type) {
+		case *ssa.Store:
+			if x.Addr != ssa.Value(cell) {
+				return oUnknown, false
+			}
+		case *ssa.UnOp, *ssa.MakeClosure, *ssa.DebugRef:
+		default:
+			return oUnknown, false
+		}
+	}
+	worst := oFresh
+	n := 0
+	visit := func(f *ssa.Function, addr func(ssa.Value) bool) {
+		for _, b := range f.Blocks {
+			for _, in := range b.Instrs {
+				if st, ok := in.(*ssa.Store); ok && addr(st.Addr) {
+					n++
+					if o := m.orgS(st.Val, depth+3, busy); o > worst {
+						worst = o
+					}
+				}
+			}
+		}
+	}
+	visit(owner, func(a ssa.Value) bool { return a == ssa.Value(cell) })
+	for _, a := range owner.AnonFuncs {
+		a := a
+		visit(a, func(v ssa.Value) bool {
+			f2, ok := v.(*ssa.FreeVar)
+			if !ok || f2.Parent() != a {
+				return false
+			}
+			// the same cell captured by this closure
+			for i, f3 := range a.FreeVars {
+				if f3 == f2 {
+					for _, b := range owner.Blocks {
+						for _, in := range b.Instrs {
+							if mc, ok := in.(*ssa.MakeClosure); ok && mc.Fn == ssa.Value(a) && mc.Bindings[i] == ssa.Value(cell) {
+								return true
+							}
+						}
+					}
+				}
+			}
+			return false
+		})
+	}
+	if n == 0 {
+		return oFresh, true // never assigned: the zero value
+	}
+	return worst, true
 }
 
 func (m *concModel) inFs(f *ssa.Function) bool {
